@@ -30,6 +30,9 @@ def scenarios(tier):
     out.append(dict(name="leaves-grid-N6-P1-R1-EF", fn="run", params=dict(N=6, P=1, R=1, adv="EF", fast=True), cost=30))
     # the warm_start section names only the file (variables defaults to []): what is on the file is restored all the same
     out.append(dict(name="unlisted-N6-P1-R2-EF", fn="run", params=dict(N=6, P=1, R=2, adv="EF", unlisted=True), cost=30))
+    # a state variable fed from the release table, without default, not written to the files: a restart cannot know its values,
+    # but the state must stay aligned (the other variables continue as in the uninterrupted run)
+    out.append(dict(name="nodefault-N6-P1-R2-EF", fn="run", params=dict(N=6, P=1, R=2, adv="EF", nodefault=True), cost=30))
     for tv in ("placeholder", "explicit", "hours", "days"):
         out.append(dict(name=f"timevar-{tv}-N6-P1-R2-EF", fn="run", params=dict(N=6, P=1, R=2, adv="EF", timevar=tv), cost=30))
     for ss in (0, 1):
@@ -53,6 +56,9 @@ def _config(W, tmp, sub, p, x0, u, temp, w0, kill, warm=None, first_file=None):
         ivars["active"] = ovar("i1")  # the activity flag is saved so that a restart can restore it
     pvars = dict(w0=ovar("f8"))
     svars = dict(w0=float)
+    isv = dict(age=float, temp=float)
+    if p.get("nodefault"):
+        isv["weight"] = float
     wvars = ["age", "temp", "w0"]
     REF = T0 - 86400
     if p.get("timevar"):
@@ -63,7 +69,7 @@ def _config(W, tmp, sub, p, x0, u, temp, w0, kill, warm=None, first_file=None):
         wvars.append("release_time")
     cfg = base_config(
         W, start=T0, stop=T0 + (-1 if p.get("rev") else 1) * N * DT, dt=DT, rev=bool(p.get("rev")), release_file=tmp / "r.rls", u=u, temp=temp, advection=p["adv"],
-        state=dict(instance_variables=dict(age=float, temp=float), particle_variables=svars, default_values=dict(age=0, temp=0)),
+        state=dict(instance_variables=isv, particle_variables=svars, default_values=dict(age=0, temp=0)),
         reference=(REF if p.get("timevar") else None),
         release=(dict(continuous=True, release_frequency=2 * DT) if not p.get("discrete_off") else dict()),
         ibm=dict(kill=kill, age=True, kill_t0=W.dt(T0), settle=({p["settle_step"]: {0: True}} if p.get("settle") else None)),  # deaths are tied to absolute time, not to the run's own step counter
@@ -111,6 +117,8 @@ def run(W, p):
     elif p.get("tworows"):
         r2 = W.idx(W.int("second_row_step", 1, N - 2))
         W.table(tmp / "r.rls", ["release_time", "X", "Y", "Z", "w0"], [[W.dt(T0), x0, 10, 5, w0], [W.dt(T0 + r2 * DT), x0 + 1, 12, 7, w0 + 1]])
+    elif p.get("nodefault"):
+        W.table(tmp / "r.rls", ["release_time", "X", "Y", "Z", "w0", "weight"], [[W.dt(T0), x0, 10, 5, w0, W.real("weight")]])
     else:
         W.table(tmp / "r.rls", ["release_time", "X", "Y", "Z", "w0"], [[W.dt(T0), x0, 10, 5, w0]])
     cfgA = _config(W, tmp, tmp / "A", p, x0, u, temp, w0, kill)
